@@ -231,6 +231,41 @@ func genComposite(r *lib.Rng, t reflect.Type, ser string) interface{} {
 		}
 		return p
 	}
+	switch t.Kind() {
+	case reflect.Int, reflect.Int8, reflect.Int64:
+		v := reflect.New(t).Elem()
+		w := 64
+		if t.Kind() == reflect.Int8 {
+			w = 8
+		}
+		v.SetInt(genInt(r, w, false))
+		return v.Interface()
+	case reflect.Uint32:
+		return uint32(genUint(r, 32, false))
+	case reflect.Float64:
+		return genFloat(r, 64)
+	case reflect.Bool:
+		return r.Bool()
+	case reflect.String:
+		if t == reflect.TypeOf("") {
+			return lib.Pick(r, hostile)
+		}
+	case reflect.Ptr:
+		switch t.Elem().Kind() {
+		case reflect.Int64:
+			if r.Chance(1, 3) {
+				return (*int64)(nil)
+			}
+			x := genInt(r, 64, false)
+			return &x
+		case reflect.Float64:
+			if r.Chance(1, 3) {
+				return (*float64)(nil)
+			}
+			x := genFloat(r, 64)
+			return &x
+		}
+	}
 	switch t {
 	case reflect.TypeOf([]string{}):
 		switch r.Intn(4) {
@@ -288,7 +323,7 @@ type GenOpt struct {
 	AllowKnown bool
 }
 
-var mainTypes = []string{"Ints", "Scalars", "Nulls", "Sers", "Embs", "Defs", "Comp", "Keyed", "StrKey", "UnixU", "Twice", "Loc", "Loc", "Uid", "PTimes", "PTimes", "Modeled", "Modeled", "Defs2", "Defs2", "SDef", "SDef", "CDef"}
+var mainTypes = []string{"Ints", "Scalars", "Nulls", "Sers", "Embs", "Defs", "Comp", "Keyed", "StrKey", "UnixU", "Twice", "Loc", "Loc", "Uid", "PTimes", "PTimes", "Modeled", "Modeled", "Defs2", "Defs2", "SDef", "SDef", "CDef", "PEmb", "PEmb", "PEmb", "NumSer", "NumSer"}
 var mapTypes = []string{"Ints", "Scalars", "Keyed", "Comp", "Embs", "Twice", "Loc", "Uid"}
 
 func genInput(r *lib.Rng, id int, g GenOpt) Input {
@@ -334,7 +369,15 @@ func genInput(r *lib.Rng, id int, g GenOpt) Input {
 	if g.NoRet && !g.AllowKnown {
 		dbdefZero = false
 	}
-	embNil := r.Chance(1, 3)
+	// nil pointer-embedded structs, decided per embedded struct
+	embNil := map[string]bool{}
+	for _, f := range d.Fields {
+		if f.EmbRoot != "" {
+			if _, ok := embNil[f.EmbRoot]; !ok {
+				embNil[f.EmbRoot] = r.Chance(2, 5) && (!f.Unsafe || g.AllowKnown)
+			}
+		}
+	}
 	ragged := isMap && r.Chance(2, 3)
 	overAt := -1
 	if g.Over {
@@ -369,7 +412,7 @@ func genInput(r *lib.Rng, id int, g GenOpt) Input {
 				rec[j] = vStr(fmt.Sprintf("k%d-%d%s", id, i, lib.Pick(r, []string{"", "'", "é"})))
 			case f.Path[len(f.Path)-1] == "DeletedAt":
 				rec[j] = vNil // not soft-deleted
-			case f.EmbPtr && embNil:
+			case f.EmbPtr && embNil[f.EmbRoot]:
 				rec[j] = vAbsent
 			case f.DbDef != nil:
 				if dbdefZero {
@@ -462,6 +505,15 @@ func sig(in Input) string {
 	}
 	curNaming = in.Naming
 	d := descOf(in.Type)
+	for j, f := range d.Fields {
+		if f.Unsafe && !strings.HasPrefix(in.Op, "map") {
+			for _, r := range in.Recs {
+				if r[j].T == "absent" {
+					return "nil-embedded-pointer-with-pointer-field-read-back-non-nil"
+				}
+			}
+		}
+	}
 	if hasSer(d) && !in.NoMMap {
 		return "map-read-through-model-with-serializer-field"
 	}
